@@ -553,6 +553,106 @@ fn C10_parser_never_panics() {
     assert_eq!(bad, 0);
 }
 
+
+// ---- C13: the protocol-name grammar, written here independently of snow's parser (no str::split / str::parse on the oracle side)
+#[derive(Debug, PartialEq, Clone)]
+enum OMod { Psk(u8), Fallback }
+fn oracle_fields(s: &str, sep: char) -> Vec<String> {
+    let mut out = vec![String::new()];
+    for c in s.chars() { if c == sep { out.push(String::new()); } else { out.last_mut().unwrap().push(c); } }
+    out
+}
+fn oracle_u8(d: &str) -> Option<u8> {
+    // what <u8 as FromStr> accepts: optional '+', one or more ASCII digits, value <= 255
+    let d = if let Some(r) = d.strip_prefix('+') { r } else { d };
+    if d.is_empty() { return None; }
+    let mut v: u32 = 0;
+    for c in d.chars() { if !c.is_ascii_digit() { return None; } v = v * 10 + (c as u32 - '0' as u32); if v > 255 { return None; } }
+    Some(v as u8)
+}
+fn oracle_mods(m: &str) -> Option<Vec<OMod>> {
+    if m.is_empty() { return Some(vec![]); }
+    let mut out = vec![];
+    for w in oracle_fields(m, '+') {
+        let md = if w == "fallback" { OMod::Fallback } else if let Some(d) = w.strip_prefix("psk") { OMod::Psk(oracle_u8(d)?) } else { return None; };
+        if out.contains(&md) { return None; }
+        out.push(md);
+    }
+    Some(out)
+}
+/// every way to read `s` as Noise_<pattern><modifiers>_<dh>_<cipher>_<hash>
+fn oracle_names(s: &str) -> Vec<(String, Vec<OMod>, String, String, String)> {
+    let f = oracle_fields(s, '_');
+    let mut out = vec![];
+    if f.len() != 5 || f[0] != "Noise" { return out; }
+    if !["25519", "448"].contains(&f[2].as_str()) || !["ChaChaPoly", "AESGCM"].contains(&f[3].as_str()) || !["SHA256", "SHA512", "BLAKE2s", "BLAKE2b"].contains(&f[4].as_str()) { return out; }
+    for e in TABLE.iter() {
+        if let Some(rest) = f[1].strip_prefix(e.0) { if let Some(ms) = oracle_mods(rest) { out.push((e.0.to_string(), ms, f[2].clone(), f[3].clone(), f[4].clone())); } }
+    }
+    out
+}
+fn c13_check(s: &str, bad: &mut usize) {
+    let want = oracle_names(s);
+    if want.len() > 1 { finding("C13", format!("oracle: the name {:?} is ambiguous in the grammar: {:?}", s, want)); *bad += 1; return; }
+    let s2 = s.to_string();
+    let got = match catch_unwind(move || s2.parse::<NoiseParams>()) { Ok(g) => g, Err(_) => { finding("C13", format!("parsing {:?} panics", s)); *bad += 1; return; } };
+    match (got, want.first()) {
+        (Ok(p), Some(w)) => {
+            let mods: Vec<OMod> = p.handshake.modifiers.list.iter().map(|m| match m { HandshakeModifier::Psk(n) => OMod::Psk(*n), HandshakeModifier::Fallback => OMod::Fallback }).collect();
+            let dh = match p.dh { DHChoice::Curve25519 => "25519", DHChoice::Curve448 => "448" };
+            let ci = match p.cipher { CipherChoice::ChaChaPoly => "ChaChaPoly", CipherChoice::AESGCM => "AESGCM" };
+            let ha = match p.hash { HashChoice::SHA256 => "SHA256", HashChoice::SHA512 => "SHA512", HashChoice::Blake2s => "BLAKE2s", HashChoice::Blake2b => "BLAKE2b" };
+            if p.name != s { finding("C13", format!("parsing {:?} does not preserve the name: name = {:?}", s, p.name)); *bad += 1; }
+            else if p.handshake.pattern.as_str() != w.0 || mods != w.1 || dh != w.2 || ci != w.3 || ha != w.4 {
+                finding("C13", format!("parsing {:?} names ({}, {:?}, {}, {}, {}) but the string spells {:?}", s, p.handshake.pattern.as_str(), mods, dh, ci, ha, w)); *bad += 1; }
+        },
+        (Ok(p), None) => { finding("C13", format!("{:?} is not a Noise protocol name but is accepted as {:?}", s, p.handshake)); *bad += 1; },
+        (Err(e), Some(w)) => { finding("C13", format!("the valid name {:?} = {:?} is rejected with {:?}", s, w, e)); *bad += 1; },
+        (Err(Error::Pattern(_)), None) => {},
+        (Err(e), None) => { finding("C13", format!("{:?} is rejected with {:?}, not a pattern error", s, e)); *bad += 1; },
+    }
+}
+#[test]
+fn C13_parser_grammar() {
+    let mut bad = 0usize;
+    let modlists = ["", "psk0", "psk1", "psk2", "psk3", "psk255", "fallback", "psk0+psk1", "psk1+psk0", "psk0+psk1+psk2", "fallback+psk0", "psk0+fallback",
+        "psk0+psk0", "psk1+psk01", "fallback+fallback", "psk01", "psk000", "psk256", "psk", "psk-1", "pskx", "+psk0", "psk0+", "psk0++psk1", "fallbac", "fallbackk", "Psk0", "hfs", "psk0+hfs", "1", "N", "K1", "X"];
+    let mut valid_sample: Vec<String> = vec![];
+    // the full product of components
+    for e in TABLE.iter() { for m in modlists { for dh in ["25519", "448"] { for ci in ["ChaChaPoly", "AESGCM"] { for ha in ["SHA256", "SHA512", "BLAKE2s", "BLAKE2b"] {
+        let s = format!("Noise_{}{}_{}_{}_{}", e.0, m, dh, ci, ha);
+        c13_check(&s, &mut bad);
+        if bad >= 6 { assert_eq!(bad, 0); }
+        if dh == "25519" && ci == "AESGCM" && ha == "BLAKE2s" && (m.is_empty() || m == "psk0+psk1" || m == "fallback") { valid_sample.push(s); }
+    } } } } }
+    // unsupported component names
+    for s in ["Noise_XX_25519_ChaChaPoly_SHA384", "Noise_XX_25519_chachapoly_SHA256", "Noise_XX_P256_ChaChaPoly_SHA256", "Noise_XX_25519_XChaChaPoly_SHA256", "Noise_XX_2551_AESGCM_SHA256", "noise_XX_25519_AESGCM_SHA256",
+              "Noise_XY_25519_AESGCM_SHA256", "Noise_XXX_25519_AESGCM_SHA256", "Noise_X1X1X_25519_AESGCM_SHA256", "Noise__25519_AESGCM_SHA256", "Noise_XX_25519_AESGCM", "Noise_XX_25519_AESGCM_SHA256_", "_Noise_XX_25519_AESGCM_SHA256", "", "_", "____", "Noise"] {
+        c13_check(s, &mut bad);
+    }
+    // every single-edit mutation of the sampled valid names
+    let alphabet = ['_', '+', 'N', 'X', 'K', 'I', '1', 'p', 'f', '0', '9', 's', 'é', '€', ' ', '\u{0}'];
+    for v in &valid_sample {
+        let cs: Vec<char> = v.chars().collect();
+        for pos in 0..=cs.len() {
+            for a in alphabet { let mut t = cs.clone(); t.insert(pos, a); c13_check(&t.iter().collect::<String>(), &mut bad); }
+            if pos < cs.len() {
+                let mut t = cs.clone(); t.remove(pos); c13_check(&t.iter().collect::<String>(), &mut bad);
+                for a in alphabet { let mut t = cs.clone(); t[pos] = a; c13_check(&t.iter().collect::<String>(), &mut bad); }
+                let mut t = cs.clone(); t[pos] = if cs[pos].is_ascii_uppercase() { cs[pos].to_ascii_lowercase() } else { cs[pos].to_ascii_uppercase() }; c13_check(&t.iter().collect::<String>(), &mut bad);
+                let mut t = cs.clone(); t.insert(pos, cs[pos]); c13_check(&t.iter().collect::<String>(), &mut bad);
+                if pos + 1 < cs.len() { let mut t = cs.clone(); t.swap(pos, pos + 1); c13_check(&t.iter().collect::<String>(), &mut bad); }
+            }
+            if bad >= 6 { assert_eq!(bad, 0); }
+        }
+    }
+    // as_str / from_str round trip on the pattern enum
+    for e in TABLE.iter() {
+        match e.0.parse::<HandshakePattern>() { Ok(p) => if p.as_str() != e.0 { finding("C13", format!("HandshakePattern {:?} prints as {:?}", e.0, p.as_str())); bad += 1; }, Err(_) => { finding("C13", format!("pattern name {:?} is rejected", e.0)); bad += 1; } }
+    }
+    assert_eq!(bad, 0);
+}
+
 // ================================================================================================ transport phase
 fn finished_pair(name: &str) -> (HandshakeState, HandshakeState) {
     let c = cfg(name);
